@@ -10,6 +10,7 @@ import (
 	"go/token"
 	"go/types"
 	"math/big"
+	"sort"
 	"strconv"
 	"strings"
 )
@@ -237,7 +238,12 @@ func (c *cctx) evalIdent(id *ast.Ident) cval {
 			return c.evalObject(o, id)
 		}
 	}
-	c.fail("unknown identifier %s", name)
+	var known []string
+	for k := range c.env {
+		known = append(known, k)
+	}
+	sort.Strings(known)
+	c.fail("unknown identifier %s (bound here: %s)", name, strings.Join(known, " "))
 	return c.mathVal(x.ar.mathC(big.NewInt(0)))
 }
 
